@@ -36,6 +36,11 @@ def query_sets(rng, grid):
         ("off-grid-only", np.sort(off)),
         ("permuted", rng.permutation(Q)),
     ]
+    new = np.setdiff1d(off, grid)
+    if 0 < len(new) <= m - 2:
+        # as many locations as the sampling grid, but not the sampling grid (sorted, so usable by every entry point)
+        drop = grid[1:-1][:: max(1, (m - 2) // len(new))][: len(new)]
+        subs.insert(5, ("same-count", np.setdiff1d(Q, drop)))
     return Q, [(n_, s) for n_, s in subs if len(s) >= 1]
 
 
